@@ -825,7 +825,9 @@ func (t *lpTr) copyCall(c *ast.CallExpr, b *lpBinds) string {
 	}
 	var base string
 	var setBack func(nv string) string
-	if sel, ok := paren(dst.X).(*ast.SelectorExpr); ok {
+	if s, sb, ok := t.marshalCopyDst(dst.X); ok { // loops_marshal.go: a byte-slice field of a local struct value
+		base, setBack = s, sb
+	} else if sel, ok := paren(dst.X).(*ast.SelectorExpr); ok {
 		f, ok := t.lineField(sel)
 		if !ok || sel.Sel.Name != "buffer" {
 			t.refuse(c, "copy destination %s", nodeText(dst.X))
@@ -1613,11 +1615,12 @@ func (t *lpTr) rangeStmt(x *ast.RangeStmt, ind int, j *lpJump) []string {
 		t.refuse(x, "range with a key variable")
 	}
 	xv := t.varOf(x.X)
-	if xv == nil || !t.isLocal(xv) || !(lpIsBytes(xv.Type()) || lpIsList(t.leanTy(xv.Type()))) {
+	extList := t.g.ext != nil && xv != nil && lpIsListTy(t.leanTy(xv.Type())) // loops_marshal.go: a []T of struct / interface values
+	if xv == nil || !t.isLocal(xv) || !(lpIsBytes(xv.Type()) || lpIsList(t.leanTy(xv.Type())) || extList) {
 		t.refuse(x, "range over %s (only a local byte slice, []string or []net.IP)", nodeText(x.X))
 	}
 	idxFn := "idxI"
-	if lpIsList(t.leanTy(xv.Type())) {
+	if lpIsList(t.leanTy(xv.Type())) || extList {
 		idxFn = "idxL"
 	}
 	if _, isStr := xv.Type().Underlying().(*types.Basic); isStr {
@@ -1826,6 +1829,11 @@ func (g *lpGen) translate(f *types.Func) (res *lpFunc, why string) {
 		}
 		if lt == "" {
 			t.refuse(fd, "parameter %s of type %s", v.Name(), v.Type())
+		}
+		if (v.Name() == "_" || v.Name() == "") && t.g.ext != nil && v == sig.Recv() {
+			// an unnamed receiver (`func (*MTU) Code() byte`) is never read: any name will do
+			fn.params = append(fn.params, fmt.Sprintf("(recv_ : %s)", lt))
+			continue
 		}
 		if v.Name() == "_" || v.Name() == "" {
 			t.refuse(fd, "unnamed parameter")
